@@ -140,7 +140,7 @@ def check_main(prop, tier, seed, a):
     if a.scale != 1.0:
         tasks = tasks[:max(1, int(len(tasks) * a.scale))]
     deadline = None
-    dl = a.deadline if a.deadline is not None else (240.0 if tier == 'quick' else 3000.0)
+    dl = a.deadline if a.deadline is not None else (480.0 if tier == 'quick' else 3000.0)
     deadline = t0 + dl
     pool = Pool(a.workers, task_timeout=600.0 if tier == 'quick' else 1800.0,
                 init=cp.worker_init)
@@ -157,7 +157,7 @@ def check_main(prop, tier, seed, a):
         return harness_error(f'{len(errors)} task(s) failed inside the harness')
     if done == 0:
         return harness_error('no task completed')
-    if done < 0.5 * len(tasks):
+    if done < 0.3 * len(tasks):
         # the dispatch deadline cut the batch short: something (hung runs, a grossly overloaded
         # machine) makes the check far slower than it is sized for; a fraction of the planned
         # exploration must not pass for the whole
